@@ -592,6 +592,9 @@ class RunningShow:
     def pause(self):
         """Pause show."""
         self.machine.show_controller.debug_log("Pausing show %s", self.show.name)
+        if self.current_step_index is None and not self._stopped:
+            # still waiting for the (synchronised) start: the pending start must not be cancelled
+            return
         self._remove_delay_handler()
         if self.show_config.events_when_paused:
             self._post_events(self.show_config.events_when_paused)
@@ -599,6 +602,9 @@ class RunningShow:
     def resume(self):
         """Resume paused show."""
         self.machine.show_controller.debug_log("Resuming show %s", self.show.name)
+        if self.current_step_index is None and not self._stopped:
+            # still waiting for the (synchronised) start: the pending start must not be cancelled
+            return
         # the show might not be paused. cancel the pending step or it would run in parallel
         self._remove_delay_handler()
         self.next_step_time = self.machine.clock.get_time()
@@ -618,6 +624,9 @@ class RunningShow:
 
     def advance(self, steps=1, show_step=None):
         """Manually advance this show to the next step."""
+        if self.current_step_index is None and not self._stopped:
+            # still waiting for the (synchronised) start: the pending start must not be cancelled
+            return
         self._remove_delay_handler()
         self.next_step_time = self.machine.clock.get_time()
 
@@ -633,6 +642,9 @@ class RunningShow:
 
     def step_back(self, steps=1):
         """Manually step back this show to a previous step."""
+        if self.current_step_index is None and not self._stopped:
+            # still waiting for the (synchronised) start: the pending start must not be cancelled
+            return
         self._remove_delay_handler()
         self.next_step_time = self.machine.clock.get_time()
 
